@@ -332,6 +332,9 @@ impl CaseKind for GradCase {
                 Err(RefErr::Refuse(w)) => return Outcome::discard(&format!("refused operands in a gradient case: {}", w)),
             }
             if let Err(p) = ex.step(s) {
+                if is_discard(&p) {
+                    return Outcome::discard(&p);
+                }
                 let kind = if matches!(s, Step::Backward { .. }) { "panic-in-backward" } else { "panic-in-forward" };
                 return Outcome::fail(kind, self.sig(kind, 9), format!("step {} ({:?}) of {:?} on operand dims {:?} panicked: {}", i, step_name(s), self.op, dims, p), key, classes);
             }
